@@ -3,6 +3,7 @@
 package corerad
 
 import (
+	"fmt"
 	"bytes"
 	"context"
 	"encoding/json"
@@ -100,6 +101,7 @@ type pathOp struct {
 // runPaths executes one history of forwarding flips and RA generations over two advertising
 // interfaces in virtual time and records what each generation produced.
 func runPaths(t *testing.T, out *vfh.Out, lifetimes [2]time.Duration, ops []pathOp) {
+	out.Pending(fmt.Sprintf("runPaths lifetimes=%v ops=%+v", lifetimes, ops))
 	synctest.Test(t, func(t *testing.T) {
 		st := &pathState{fw: map[string]bool{"vf0": true, "vf1": true}, failNext: map[string]bool{}}
 		logs := &syncBuf{}
